@@ -203,4 +203,24 @@ def headers : List UInt8 → List UInt8
 termination_by l => l.length
 decreasing_by all_goals (simp_wf; try omega)
 
+/-! ### Chunk presentation of a PackBits stream -/
+
+/-- A PackBits chunk: a replicate run or a literal string. -/
+inductive Chunk where
+  | run (n : Nat) (b : UInt8)
+  | lit (bs : List UInt8)
+
+def Chunk.emit : Chunk → List UInt8
+  | .run n b => [UInt8.ofNat (257 - n), b]
+  | .lit bs => UInt8.ofNat (bs.length - 1) :: bs
+
+def Chunk.content : Chunk → List UInt8
+  | .run n b => List.replicate n b
+  | .lit bs => bs
+
+/-- runs: 2…128 equal bytes; literals: 1…127 bytes. -/
+def Chunk.Valid : Chunk → Prop
+  | .run n _ => 2 ≤ n ∧ n ≤ 128
+  | .lit bs => 1 ≤ bs.length ∧ bs.length ≤ 127
+
 end PsdVerif.Rle
